@@ -24,7 +24,9 @@ Dig(a, i) == IF i >= 1 /\ i <= Len(a) THEN a[i] ELSE 0
 RECURSIVE NormLen(_, _)
 NormLen(a, n) == IF n = 0 THEN 0 ELSE IF a[n] # 0 THEN n ELSE NormLen(a, n - 1)
 
-Norm(a) == LET n == NormLen(a, Len(a)) IN IF n = Len(a) THEN a ELSE SubSeq(a, 1, n)
+\* SubSeq also turns a function expression [i \in 1..n |-> ...] into an explicit tuple; TLC would
+\* otherwise keep it unevaluated and recompute a digit on every access.
+Norm(a) == SubSeq(a, 1, NormLen(a, Len(a)))
 
 Zero == << >>
 One  == <<1>>
@@ -154,7 +156,7 @@ ToBytes(a, n) ==             \* the low n bytes of a
             IN  IF r = 0 THEN ((d0) % 256)
                 ELSE IF r = 1 THEN (d0 \div 256) + ((d1) % 16) * 16
                 ELSE d1 \div 16
-    IN  [k \in 1..n |-> B(k - 1)]
+    IN  SubSeq([k \in 1..n |-> B(k - 1)], 1, n)
 
 (***************************************************************************)
 (* Division by witness:  x = q * m + r  /\  r < m                          *)
